@@ -63,6 +63,9 @@ def unfold(t: Any) -> list:
 
 def _unfold_occ(t: Any) -> list:
     return [
+        # canonical form of absent optional parts (so that datatype equality is Python equality of the objects)
+        z3.Implies(GTerm.is_Lit(t), And(z3.Implies(z3.Not(GTerm.has_lang(t)), GTerm.lang(t) == ""),
+                                       z3.Implies(z3.Not(GTerm.has_dt(t)), GTerm.dt(t) == ""))),
         occ_n(t) >= 0, occ_d(t) >= 0, depth(t) >= 0,
         z3.Implies(GTerm.is_IRI(t), And(occ_n(t) == 1, occ_d(t) == 0)),
         z3.Implies(GTerm.is_BNode(t), And(occ_n(t) == 0, occ_d(t) == 0)),
@@ -173,6 +176,15 @@ class TermFamily:
             for a in attrs:
                 if f"self.{a}" not in src:
                     problems.append(f"{cname}.__init__ no longer sets {a}")
+        for cname in ("IRI", "BlankNode", "Literal", "_DefaultGraph"):
+            c = m.bindings.get(cname)
+            if c is not None and hasattr(c, "methods"):
+                for special in ("__bool__", "__len__", "__ne__", "__getattr__", "__getattribute__"):
+                    if special in c.methods:
+                        problems.append(f"{cname} defines {special}: truthiness/comparison of terms is modelled as the default")
+        dg = m.bindings.get("_DefaultGraph")
+        if dg is not None and hasattr(dg, "methods") and "__eq__" in dg.methods:
+            problems.append("_DefaultGraph defines __eq__ (modelled as identity)")
         t = m.bindings.get("Triple")
         if t is None or getattr(t, "field_order", None) != ["s", "p", "o"]:
             problems.append("Triple is no longer NamedTuple(s, p, o)")
